@@ -52,7 +52,14 @@ def sh(cmd, cwd=None, env=None, timeout=3600):
 
 def run_one(args):
     k, m = args
-    slot = k % JOBS
+    slot = SLOTS.get()          # a free slot: two mutants never share a scratch directory at the same time
+    try:
+        return run_in_slot(slot, m)
+    finally:
+        SLOTS.put(slot)
+
+
+def run_in_slot(slot, m):
     base = '/tmp/wt/mt%d' % slot
     repo = base + '/repo'
     os.makedirs(base, exist_ok=True)
@@ -99,6 +106,10 @@ def run_one(args):
 
 if __name__ == '__main__':
     n_per_file, JOBS, outp = int(sys.argv[1]), int(sys.argv[2]), sys.argv[3]
+    import queue
+    SLOTS = queue.Queue()
+    for i in range(JOBS):
+        SLOTS.put(i)
     seed = int(sys.argv[4]) if len(sys.argv) > 4 else 1
     only = sys.argv[5] if len(sys.argv) > 5 else ''
     rnd = random.Random(seed)
